@@ -71,7 +71,7 @@ def pipeline(ctx, cases_by=None):
         "their owner is not identifiable",
         "ApplyStyleToXML is judged on the elements it conveys (spacing, alignment, indentation, outlineLevel and the "
         "eight character-level ones)",
-        "a resolver call that does not return (process death, 20 s limit) is a witness; further resolver calls for the "
+        "a resolver call that does not return (process death announced by the Go runtime, 60 s limit) is a witness; further resolver calls for the "
         "same id on the unchanged registry are then not executed in that behaviour (each death costs a process start)",
         "writing through the object returned by GetStyleWithInheritance changes the registry (the result is the registered "
         "object or shares its parts); C14 constrains resolution, not the caller, so this is recorded, not judged",
@@ -87,8 +87,8 @@ def pipeline(ctx, cases_by=None):
 
     bounds = {}
     if q:
-        cases = ctx.tlc_gen("StyleInh_MC.tla", enumcfg(ctx, "enum3.cfg", 3, ["empty", "compl"], "none"), "enum3", timeout=600)
-        bounds["enum3"] = "3 styles: 5^3 basedOn graphs x 2^3 masks of x x {y nowhere, y exactly where x is not} x 4 queried ids"
+        cases = ctx.tlc_gen("StyleInh_MC.tla", enumcfg(ctx, "enum3.cfg", 3, ["compl"], "none"), "enum3", timeout=600)
+        bounds["enum3"] = "3 styles: 5^3 basedOn graphs x 2^3 masks of x, y exactly where x is not x 4 queried ids"
     else:
         cases = ctx.tlc_gen("StyleInh_MC.tla", enumcfg(ctx, "enum3.cfg", 3, ["free"], "clone"), "enum3", timeout=900)
         bounds["enum3"] = "3 styles: 5^3 basedOn graphs x 2^3 masks of x x 2^3 masks of y (independent) x 4 queried ids; tail: clone ops"
@@ -97,17 +97,21 @@ def pipeline(ctx, cases_by=None):
         cases = ctx.tlc_gen("StyleInh_MC.tla", enumcfg(ctx, "enum2.cfg", 2, ["free"], "clone"), "enum2", timeout=600)
         bounds["enum2"] = "2 styles: 4^2 basedOn graphs x 2^2 masks of x x 2^2 masks of y x 3 queried ids; tail: clone ops, resolution on the clone"
         allobs.append(ctx.run_exec("styleinh", cases, "enum2", shards=4))
+    cases = ctx.tlc_gen("StyleInh_MC.tla", enumcfg(ctx, "rmr2.cfg", 2, ["compl"] if q else ["free"], "rmr"), "rmr2", timeout=600)
+    bounds["rmr2"] = ("2 styles: every registry (y %s) x every defined-or-not queried style id: resolve, then every single "
+                      "AddStyle / RemoveStyle / CreateCustomStyle, then resolve again" % ("exactly where x is not" if q else "independent"))
+    allobs.append(ctx.run_exec("styleinh", cases, "rmr2", shards=12))
     if not q:
         cases = ctx.tlc_gen("StyleInh_MC.tla", enumcfg(ctx, "enum4.cfg", 4, ["compl"], "none"), "enum4", timeout=1200)
         bounds["enum4"] = "4 styles: 6^4 basedOn graphs x 2^4 masks of x, y exactly where x is not x 5 queried ids"
         obs = ctx.run_exec("styleinh", cases, "enum4", shards=12)
         judge(ctx, obs, "enum4")
-        judge(ctx, allobs.pop(), "enum3")
+        judge(ctx, allobs.pop(0), "enum3")
     ctx.exhaustive = True
 
     d = 7 if q else 12
     sim = ctx.tlc_gen("StyleInh_MC.tla", simcfg(ctx, "gen_sim.cfg", 3 if q else 4, d), "sim", mode="sim",
-                      num=8 if q else 40, depth=d + 1, limit=1200 if q else 12000)
+                      num=45 if q else 400, depth=d + 1, limit=1500 if q else 12000)
     bounds["sim"] = "%d random operation sequences of length %d over %d styles, all 9 operations" % (len(sim), d, 3 if q else 4)
     allobs.append(ctx.run_exec("styleinh", sim, "sim", shards=12))
     if allobs:
